@@ -60,6 +60,30 @@ pub enum TransportCall {
     Cancel(ConnectionId),
     /// Emitted right after `Dial`: the peer the transport will authenticate the remote against.
     DialTarget(ConnectionId, Option<PeerId>),
+    /// Emitted right after a successful `Accept`: whether informing the protocols (the accept future) succeeds.
+    Notify(ConnectionId),
+}
+
+/// Transport-level events the harness can inject through a scripted transport (`TransportEvent` is crate-private).
+#[derive(Debug, Clone)]
+pub enum ScriptedEvent {
+    DialFailure { connection_id: ConnectionId, address: Multiaddr },
+    ConnectionEstablished { peer: PeerId, endpoint: crate::transport::Endpoint },
+    ConnectionOpened { connection_id: ConnectionId, address: Multiaddr },
+    OpenFailure { connection_id: ConnectionId, addresses: Vec<Multiaddr> },
+    PendingInboundConnection { connection_id: ConnectionId },
+}
+
+/// What one poll of `TransportManager::next()` produced.
+#[derive(Debug, Clone, PartialEq, Eq)]
+pub enum LoopOutcome {
+    Pending,
+    Ended,
+    ConnectionEstablished { peer: PeerId, endpoint: crate::transport::Endpoint },
+    ConnectionClosed { peer: PeerId, connection_id: ConnectionId },
+    DialFailure { connection_id: ConnectionId, address: Multiaddr },
+    OpenFailure { connection_id: ConnectionId, addresses: Vec<Multiaddr> },
+    Other,
 }
 
 /// Transport whose answers are chosen by the harness: `decide(call)` returns whether the call succeeds.
@@ -67,6 +91,8 @@ struct ScriptedTransport {
     decide: Box<dyn FnMut(TransportCall) -> bool + Send>,
     /// peer the last `dial` would authenticate the remote against (as parsed by the TCP address parser)
     dialed_peer: Option<PeerId>,
+    /// source of the events the transport emits when polled (none: the transport is always `Pending`)
+    events: Option<Box<dyn FnMut() -> Option<ScriptedEvent> + Send>>,
 }
 
 impl ScriptedTransport {
@@ -77,7 +103,23 @@ impl ScriptedTransport {
 
 impl Stream for ScriptedTransport {
     type Item = TransportEvent;
-    fn poll_next(self: Pin<&mut Self>, _cx: &mut Context<'_>) -> Poll<Option<Self::Item>> { Poll::Pending }
+    fn poll_next(mut self: Pin<&mut Self>, _cx: &mut Context<'_>) -> Poll<Option<Self::Item>> {
+        let Some(events) = self.events.as_mut() else { return Poll::Pending };
+        let Some(event) = events() else { return Poll::Pending };
+        use crate::error::DialError;
+        Poll::Ready(Some(match event {
+            ScriptedEvent::DialFailure { connection_id, address } =>
+                TransportEvent::DialFailure { connection_id, address, error: DialError::Timeout },
+            ScriptedEvent::ConnectionEstablished { peer, endpoint } => TransportEvent::ConnectionEstablished { peer, endpoint },
+            ScriptedEvent::ConnectionOpened { connection_id, address } =>
+                TransportEvent::ConnectionOpened { connection_id, address, errors: Vec::new() },
+            ScriptedEvent::OpenFailure { connection_id, addresses } => TransportEvent::OpenFailure {
+                connection_id,
+                errors: addresses.into_iter().map(|address| (address, DialError::Timeout)).collect(),
+            },
+            ScriptedEvent::PendingInboundConnection { connection_id } => TransportEvent::PendingInboundConnection { connection_id },
+        }))
+    }
 }
 
 impl Transport for ScriptedTransport {
@@ -92,7 +134,8 @@ impl Transport for ScriptedTransport {
     }
     fn accept(&mut self, connection_id: ConnectionId) -> crate::Result<BoxFuture<'static, crate::Result<()>>> {
         self.answer(TransportCall::Accept(connection_id))?;
-        Ok(Box::pin(async { Ok(()) }))
+        let notified = (self.decide)(TransportCall::Notify(connection_id));
+        Ok(Box::pin(async move { if notified { Ok(()) } else { Err(Error::InvalidState) } }))
     }
     fn accept_pending(&mut self, connection_id: ConnectionId) -> crate::Result<()> { self.answer(TransportCall::AcceptPending(connection_id)) }
     fn reject_pending(&mut self, connection_id: ConnectionId) -> crate::Result<()> { self.answer(TransportCall::RejectPending(connection_id)) }
@@ -107,7 +150,38 @@ impl Transport for ScriptedTransport {
 }
 
 pub fn register_scripted_tcp(manager: &mut TransportManager, decide: Box<dyn FnMut(TransportCall) -> bool + Send>) {
-    manager.register_transport(SupportedTransport::Tcp, Box::new(ScriptedTransport { decide, dialed_peer: None }));
+    manager.register_transport(SupportedTransport::Tcp, Box::new(ScriptedTransport { decide, dialed_peer: None, events: None }));
+}
+
+/// Like [`register_scripted_tcp`], with a source of transport events that `TransportManager::next()` will see.
+pub fn register_scripted_tcp_with_events(
+    manager: &mut TransportManager,
+    decide: Box<dyn FnMut(TransportCall) -> bool + Send>,
+    events: Box<dyn FnMut() -> Option<ScriptedEvent> + Send>,
+) {
+    manager.register_transport(SupportedTransport::Tcp, Box::new(ScriptedTransport { decide, dialed_peer: None, events: Some(events) }));
+}
+
+/// Poll `TransportManager::next()` once.
+pub fn next_now(manager: &mut TransportManager) -> LoopOutcome {
+    let mut future = Box::pin(manager.next());
+    let waker = noop_waker();
+    let mut cx = Context::from_waker(&waker);
+    match std::future::Future::poll(future.as_mut(), &mut cx) {
+        Poll::Pending => LoopOutcome::Pending,
+        Poll::Ready(None) => LoopOutcome::Ended,
+        Poll::Ready(Some(TransportEvent::ConnectionEstablished { peer, endpoint })) => LoopOutcome::ConnectionEstablished { peer, endpoint },
+        Poll::Ready(Some(TransportEvent::ConnectionClosed { peer, connection_id })) => LoopOutcome::ConnectionClosed { peer, connection_id },
+        Poll::Ready(Some(TransportEvent::DialFailure { connection_id, address, .. })) => LoopOutcome::DialFailure { connection_id, address },
+        Poll::Ready(Some(TransportEvent::OpenFailure { connection_id, errors })) =>
+            LoopOutcome::OpenFailure { connection_id, addresses: errors.into_iter().map(|(address, _)| address).collect() },
+        Poll::Ready(Some(_)) => LoopOutcome::Other,
+    }
+}
+
+/// What a connection task does when its connection ends: tell the manager through its event channel.
+pub fn report_connection_closed(manager: &TransportManager, peer: PeerId, connection_id: ConnectionId) -> bool {
+    manager.event_tx.try_send(crate::transport::manager::TransportManagerEvent::ConnectionClosed { peer, connection: connection_id }).is_ok()
 }
 
 fn noop_waker() -> std::task::Waker {
